@@ -109,3 +109,16 @@ PROPS['C19'] = dict(
     trusted_base=TRUSTED_COMMON + ["atomicity of rename(2) and the directory semantics of the OS are assumptions of the writer model", "BufWriter buffering is abstracted to 'the temporary file holds a prefix of the bytes handed over so far'"],
     not_exhibited_by_model=["durability across power loss (the writer never calls fsync)", "a failing remove_file inside the TempFile guard (only logged by the code)"],
 )
+
+PROPS['C18'] = dict(
+    lean_targets=['AnonModel.Props.C18'],
+    required_theorems=['C18_inv', 'C18_handles_unique_never_reused', 'C18_linearizable', 'C18_resolves_until_freed', 'C18_wrong_type_errors',
+                       'C18_snapshot_survives_free', 'C18_checker_sound'],
+    families=[dict(name='c18')],
+    default_dir='exact',
+    fam_theorem={'c18': 'C18_checker_sound (every history of the model machine is accepted by checkHistory) + C18_linearizable'},
+    rule="mixed create/json/type-name/use-as/free workloads from 2,3,4,8,16 threads over 2-11 shared handle slots (three object types, unique object ids embedded in the JSON payload, immortal and freeable slots, bogus handles) through the exported C functions; each call stamped with invocation/response tickets from one SeqCst counter; the recorded history is judged by the model's per-handle linearizability checker (must be accepted). 120 workloads x ~100 calls in quick, 1500 x ~1000 in thorough. Independent oracle: create never returns 0 or a duplicate handle. distinct = distinct histories (all non-trivial: several threads, frees racing gets)",
+    trusted_base=TRUSTED_COMMON + ["the step machine takes the locked section of each FFI call as one atomic micro-step (std::sync::Mutex gives mutual exclusion; AtomicUsize::fetch_add(SeqCst) is atomic)",
+                                   "failure kinds of wrong-typed vs invalid-handle uses are determined by construction of the workload (the library's error slot is process-global and cannot be read back reliably under concurrency)"],
+    not_exhibited_by_model=["Arc reference counting and deallocation (a snapshot is a plain value in the model)", "the mutex implementation and lock poisoning after a panic inside the lock", "weak-memory effects below SeqCst, counter wrap-around"],
+)
